@@ -1,9 +1,53 @@
 import Isotp.PyAgree.Threaded
 
 /-!
-  The worker thread of the threaded wrapper `TransportLayer` (isotp/protocol.py): `_main_thread_fn`, and the two guarded
-  entry points `TransportLayer.process` / `TransportLayer.reset`, against the model `TL` (`Isotp/Threaded.lean`).
-  Continues `Isotp/PyAgree/Threaded.lean` (same presentation: `ShowsW`, `St`, `Spec`, `CoreRel`; nothing of it is changed).
+  The worker thread of the threaded wrapper `TransportLayer` (isotp/protocol.py): `_main_thread_fn`
+  (`Src.TransportLayer_p_main_thread_fn`: a `tryFinally` around a `while_`, second semantics), and the two guarded entry points
+  `TransportLayer.process` / `TransportLayer.reset` (`Src.TransportLayer_process`, `Src.TransportLayer_reset`), against the model `TL`
+  (`Isotp/Threaded.lean`).  Continues `Isotp/PyAgree/Threaded.lean`: same presentation (`ShowsW`, `St`, `Shows`, `Spec`, `CoreRel`; the events,
+  thread handles and the relay queue as environment keys; the logic layer through an abstract relation `R`), nothing of it is changed.
+
+  ## Presentation added here
+  * `self.is_rx_active()`, `self.is_tx_transmitting_cf()`: primitives with the model's values; `self.next_cf_delay()`,
+    `self.params.wait_func`, `self.is_tx_throttled()`, `self.default_read_timeout`, `0.0`: timing only, opaque (`WorkerPrims`).
+  * the two calls into the logic layer, `super().process(rx_timeout)` and `super().process(do_rx=False, do_tx=True)`, through `R`
+    (`WorkerSpec.processFull`, `.processTxOnly`, and `...Raises` when the model's `process` sets `exc`).
+  * the OTHER thread: a schedule counter under the history key `#sched`; the `process` call during which the counter is 0 returns with
+    `stop_requested` set and a wake-up token queued (the first two statements of another thread's `stop()`).  `is_set()` stays a pure read
+    of `#ev.stop_requested`.  Key absent: no interference (the sequential reading).
+  * `delay` is the one local of the function that is not already a wrapper key: `WorkerRel R` says `R` does not look at it.
+
+  ## Theorems
+  1. `process_refuses`, `process_hands_over`, `process_agrees`, `process_raises_iff`; `reset_refuses`, `reset_agrees`, `reset_raises_iff`:
+     `RuntimeError` iff started; otherwise the call is handed to the logic layer.  (`return super().process(...)` is a call in EXPRESSION
+     position: in this semantics it has a value and no effect on the environment, so for `process` the hand-over is stated as "the result
+     is the callee's result on exactly the given arguments"; `reset` calls `super().reset()` as a statement and agrees with `TL.reset` in full.)
+  2. (a) `worker_src`, `worker_ready_first`: the first statement sets `main_thread_ready` (the environment `Spec.hReady` postulates).
+     (b) `worker_body`, `worker_iteration`: one pass through the loop body = `workerIter` = `procStep` (the `process` call of the branch the
+         state selects), then `serveTx`, `serveRx`;  `procStep_eq_workerStep`, `worker_iteration_workerStep`: the full branch IS
+         `TL.workerStep`;  `proc_cf`: the streaming branch is `State.process false true` with the relay queue untouched - NOT covered by
+         `TL.workerStep` (section 9: `procStep_cf_ne_workerStep`, `cf_iteration_not_workerStep`);
+         `serve_tx_is_hServe`, `serve_rx_is_hServeRx`: the request blocks produce exactly the environment `Spec.hServe` / `hServeRx` postulate;
+         `serveTx_eq_stopSending`, `serveRx_eq_stopReceiving`: and that is what `TL.stopSending` / `TL.stopReceiving` say.
+     (c) `worker_loop_exit`, `worker_exits_on_stop`: `stop_requested` set: the loop ends, `finally: super().reset()` runs: `exited` (the core
+         reset of `TL.workerExit`; `workerExit_eq`);  `worker_fn_of_loop_raised` (any `Meths`), `worker_raises_finally_callee` (any exception
+         of the callee), `worker_raises_finally`, `worker_raises_finally_after` (the model's `process` raising, in the first / a later
+         pass): the function ends `Out.raised e` in the RESET environment.
+     (d) `worker_loop_sched`, `worker_runs`: under the schedule `#sched = k`: `k` undisturbed passes, one pass during which the stop request
+         arrives, exit; by induction on `k`.
+  Section 10: a concrete world (`wMeths`, `Rq`, `raiseMeths`) in which every assumption holds, with `example`s for each hypothesis-carrying
+  theorem and two kernel-evaluated runs of the dumped function.
+
+  ## Findings
+  * MODEL GAP 1 (streaming branch, section 9).  Observed on the real code (2026-10-01): a Single Frame injected while Consecutive Frames
+    were streamed at STmin = 100 ms was delivered 1.2 s later, right after the last CF; a First Frame got its Flow Control 1.2 s late
+    (the peer's N_Bs is 1 s).  The model's worker would have handled both at once.
+  * MODEL GAP 2 (worker death).  When `super().process` raises (the user's `txfn` or error handler raising inside it: neither is guarded
+    in `process` / `_trigger_error`), the source leaves the loop, resets the logic layer and the thread ends with the exception; nothing
+    else is touched: `started` stays `True`, `stop_requested` is not set, the relay thread keeps filling the queue, `stop_sending()` /
+    `stop_receiving()` silently do nothing (`is_alive()` is false), `send()` queues for ever.  `TL.workerStep` just records `core.exc` and
+    keeps `mainThread = .running`.
+  * `process` of the wrapper: see 1. (semantics limitation, not a gap of the model).
 -/
 namespace Isotp.PyAgree.Thr
 open Isotp Isotp.Py
@@ -281,13 +325,17 @@ def afterCall (env : Env) (q' : List (Option CanMsg)) : Env :=
 def SchedStep (env env' : Env) : Prop :=
   ∀ n : Nat, env "#sched" = some (pint ((n + 1 : Nat) : Int)) → env' "#sched" = some (pint (n : Int))
 
-structure WorkerSpec (M : Meths) (R : Env → State → Prop) : Prop where
+/-- the accessors and the timing primitives -/
+structure WorkerPrims (M : Meths) (R : Env → State → Prop) : Prop where
   rxActive : ∀ (env : Env) (s : State), R env s → M.fn "self.is_rx_active" [] env = .ok (pbool s.isRxActive)
   txCf : ∀ (env : Env) (s : State), R env s →
     M.fn "self.is_tx_transmitting_cf" [] env = .ok (pbool (decide (s.txState = .transmitCf)))
   cfDelay : ∀ (env : Env) (s : State), R env s → s.txState = .transmitCf → ∃ d : Int, M.fn "self.next_cf_delay" [] env = .ok (pint d)
   waitFunc : ∀ (env : Env) (v : PV), M.proc "self.params.wait_func" [v] env = .ok env
   throttled : ∀ (env : Env), ∃ b : Bool, M.fn "self.is_tx_throttled" [] env = .ok (pbool b)
+
+/-- ... plus the two `process` calls and the schedule -/
+structure WorkerSpec (M : Meths) (R : Env → State → Prop) : Prop extends WorkerPrims M R where
   processFull : ∀ (env : Env) (s : State) (q : List (Option CanMsg)) (v : PV), R env s →
     env "#relay_queue" = some (.list (encQ q)) → ((feed s q).process true true).1.exc = none →
     ∃ env', M.proc "super().process" [v] env = .ok env' ∧ R env' ((feed s q).process true true).1 ∧
@@ -330,7 +378,7 @@ theorem St.afterProcess (hR : CoreRel R) (h : St R env0 env t) (q' : List (Optio
       intro k hk; rw [hfr k hk]; simp only [afterCall, ha, if_true]; rfl
     exact (((h.setQ hR (q' ++ [none])).setEv hR .stopRequested true).congr env' s' hfr' hc).cast (by simp [stopArrives, evPut])
 
-theorem eval_inCf (hW : WorkerSpec M R) (env : Env) (s : State) (h : R env s) :
+theorem eval_inCf (hW : WorkerPrims M R) (env : Env) (s : State) (h : R env s) :
     eval M env (.and_ (.not_ (.call "self.is_rx_active" .nil)) (.call "self.is_tx_transmitting_cf" .nil)) = .ok (pbool (inCf s)) := by
   have h1 : eval M env (.not_ (.call "self.is_rx_active" .nil)) = .ok (pbool (!s.isRxActive)) :=
     eval_not M env _ _ (by rw [eval_fn0 M env _ (by decide), hW.rxActive env s h])
@@ -349,7 +397,7 @@ theorem afterCall_set (env : Env) (k : String) (v : PV) (q' : List (Option CanMs
   simp only [afterCall, arrives_set env k v hk]
 
 /-- the timeout of the full branch: some number -/
-theorem eval_rxTimeout (hM : Spec M R) (hW : WorkerSpec M R) (h : ShowsW env t) :
+theorem eval_rxTimeout (hM : Spec M R) (hW : WorkerPrims M R) (h : ShowsW env t) :
     ∃ rt : Int, eval M env (.ifexp (.call "self.is_tx_throttled" .nil) (.call "__float__" (.cons (.strLit "0.0") .nil))
       (.var "self.default_read_timeout")) = .ok (pint rt) := by
   obtain ⟨d, hd⟩ := h.cTimeout
@@ -369,7 +417,7 @@ theorem proc_full (hM : Spec M R) (hW : WorkerSpec M R) (hR : CoreRel R) (h : St
       { t with core := ((feed t.core t.relayQ).process true true).1, relayQ := (TL.takeUntilNone t.relayQ).2 } := by
     simp [procStep, hcf]
   rw [hps] at hexc ⊢
-  obtain ⟨rt, hrt⟩ := eval_rxTimeout hM hW h.w
+  obtain ⟨rt, hrt⟩ := eval_rxTimeout hM hW.toWorkerPrims h.w
   have h1 := h.setLocal hR "rx_timeout" (pint rt) (by decide)
   obtain ⟨e2, x2, r2, f2, s2⟩ := hW.processFull (env.set "rx_timeout" (pint rt)) t.core t.relayQ (pint rt) h1.c h1.w.q hexc
   have h2 := h1.afterProcess hR _ e2 _ f2 r2
@@ -377,7 +425,7 @@ theorem proc_full (hM : Spec M R) (hW : WorkerSpec M R) (hR : CoreRel R) (h : St
   refine ⟨e2, ?_, h2, ?_⟩
   · have hrun : RunS M env procStmt (fun e => e = e2) := by
       unfold procStmt
-      refine RunS.ite_false (by rw [eval_inCf hW env _ h.c, hcf]) ?_
+      refine RunS.ite_false (by rw [eval_inCf hW.toWorkerPrims env _ h.c, hcf]) ?_
       unfold fullBranch
       refine Run.cons (exec_assign M env _ _ _ hrt) ?_
       refine Run.cons (exec_proc1 M _ e2 _ _ _ (by decide) (eval_var M _ _ _ (by simp [Env.set])) x2) ?_
@@ -405,7 +453,7 @@ theorem inCf_txState {s : State} (h : inCf s = true) : s.txState = .transmitCf :
   simp [inCf] at h; exact h.2
 
 /-- the three statements of the streaming branch before its `process` call: timing only (`delay` is bound, `wait_func` may sleep) -/
-theorem cf_prefix (hW : WorkerSpec M R) (hD : WorkerRel R) (h : St R env0 env t) (hcf : inCf t.core = true) :
+theorem cf_prefix (hW : WorkerPrims M R) (hD : WorkerRel R) (h : St R env0 env t) (hcf : inCf t.core = true) :
     ∃ d : Int, St R env0 (env.set "delay" (pint d)) t ∧
       execStmt M env (.assign "delay" (.call "self.next_cf_delay" .nil)) = .ok (.next (env.set "delay" (pint d))) ∧
       execStmt M (env.set "delay" (pint d)) (.assert_ (.isNotNone (.var "delay"))) = .ok (.next (env.set "delay" (pint d))) ∧
@@ -434,14 +482,14 @@ theorem proc_cf (hM : Spec M R) (hW : WorkerSpec M R) (hR : CoreRel R) (hD : Wor
       SchedStep env env' := by
   have hps : procStep t = { t with core := (t.core.process false true).1 } := by simp [procStep, hcf]
   rw [hps] at hexc ⊢
-  obtain ⟨d, h1, x1, x2, x3⟩ := cf_prefix hW hD h hcf
+  obtain ⟨d, h1, x1, x2, x3⟩ := cf_prefix hW.toWorkerPrims hD h hcf
   obtain ⟨e2, y2, r2, f2, s2⟩ := hW.processTxOnly (env.set "delay" (pint d)) t.core t.relayQ h1.c h1.w.q hexc
   have h2 := h1.afterProcess hR _ e2 _ f2 r2
   rw [arrives_set env _ _ (by decide)] at h2
   refine ⟨e2, ?_, h2.cast (by cases t; rfl), ?_⟩
   · have hrun : RunS M env procStmt (fun e => e = e2) := by
       unfold procStmt
-      refine RunS.ite_true (by rw [eval_inCf hW env _ h.c, hcf]) ?_
+      refine RunS.ite_true (by rw [eval_inCf hW.toWorkerPrims env _ h.c, hcf]) ?_
       unfold cfBranch
       refine Run.cons x1 (Run.cons x2 (Run.cons x3 (Run.single ?_)))
       refine RunS.ite_true (eval_not_isSet hM _ .stopRequested false (h1.w.e3.trans (by rw [hsr]))) ?_
@@ -641,6 +689,21 @@ theorem worker_loop_exit (hM : Spec M R) (env : Env) (h : env "#ev.stop_requeste
   rw [exec2S_while, eval_workerCond hM env true h]
   rfl
 
+/-- one iteration, on the invariant of a run -/
+theorem worker_iteration_st (hM : Spec M R) (hW : WorkerSpec M R) (hR : CoreRel R) (hD : WorkerRel R) {env0 env : Env} {t : TL}
+    (h : St R env0 env t) (hsr : t.ev.stopRequested = false) (hexc : (procStep t).core.exc = none) :
+    ∃ env', St R env0 env' (workerIter (arrives env) t) ∧ SchedStep env env' ∧
+      ∀ n, 12 ≤ n → exec2S (n + 1) M env workerLoop = exec2S n M env' workerLoop := by
+  obtain ⟨env', x1, x2, x3⟩ := worker_body hM hW hR hD h hsr hexc
+  refine ⟨env', x2, x3, fun n hn => ?_⟩
+  have hc := eval_workerCond hM env false (hsr ▸ h.w.e3)
+  unfold workerLoop
+  rw [exec2S_while, hc]
+  simp only [truthy_pbool, Bool.not_false]
+  rw [exec2B_of_execBlock_ok M workerBody n env _ workerBody_shape.1 workerBody_shape.2.1
+    (Nat.le_trans workerBody_shape.2.2 hn) x1]
+  rfl
+
 /-- **(b) one iteration of the loop of `_main_thread_fn`** (stop not requested, the model's `process` does not raise): the loop unfolds
     once, `exec2S (n+1) (while) env = exec2S n (while) env'`, where `env'` - reached by one pass through the body - shows
     `workerIter (arrives env) t`: the `process` call of the branch the state selects (`procStep`), then the two request blocks. -/
@@ -648,15 +711,8 @@ theorem worker_iteration (hM : Spec M R) (hW : WorkerSpec M R) (hR : CoreRel R) 
     (h : Shows R env t) (hsr : t.ev.stopRequested = false) (hexc : (procStep t).core.exc = none) :
     ∃ env', Shows R env' (workerIter (arrives env) t) ∧ (∀ k ∈ passiveKeys, env' k = env k) ∧ SchedStep env env' ∧
       ∀ n, 12 ≤ n → exec2S (n + 1) M env workerLoop = exec2S n M env' workerLoop := by
-  obtain ⟨env', x1, x2, x3⟩ := worker_body hM hW hR hD (St.init h) hsr hexc
-  refine ⟨env', x2.shows, x2.keep, x3, fun n hn => ?_⟩
-  have hc := eval_workerCond hM env false (hsr ▸ h.1.e3)
-  unfold workerLoop
-  rw [exec2S_while, hc]
-  simp only [truthy_pbool, Bool.not_false]
-  rw [exec2B_of_execBlock_ok M workerBody n env _ workerBody_shape.1 workerBody_shape.2.1
-    (Nat.le_trans workerBody_shape.2.2 hn) x1]
-  rfl
+  obtain ⟨env', x1, x2, x3⟩ := worker_iteration_st hM hW hR hD (St.init h) hsr hexc
+  exact ⟨env', x1.shows, x1.keep, x2, x3⟩
 
 /-- ... against `TL.workerStep`: a running worker, stop not requested, not streaming (`inCf` false), no request pending, no stop arriving:
     the environment after the pass shows `TL.workerStep t` -/
@@ -671,21 +727,23 @@ theorem worker_iteration_workerStep (hM : Spec M R) (hW : WorkerSpec M R) (hR : 
   rw [hna, workerIter_eq_workerStep t hm hsr hcf htx hrx] at x1
   exact ⟨env', x1, x2, x4⟩
 
-/-- the `process` call of the iteration when the model says it raises `e`: the statement raises `e`, in the environment of the call
-    (the environment of the iteration with the branch's local bound).  In this semantics a callee that raises has no effect on the
-    environment (`simple2`): what the logic layer did before raising is not visible - the `finally` block resets it anyway. -/
-theorem proc_raises (hM : Spec M R) (hW : WorkerSpec M R) (hR : CoreRel R) (hD : WorkerRel R) {env0 env : Env} {t : TL}
-    (h : St R env0 env t) (hsr : t.ev.stopRequested = false) (e : PyExc) (hexc : (procStep t).core.exc = some e) (k : Nat) :
+/-- the `process` call of the iteration when the callee raises `e` (whatever the reason: the logic layer, the user's `txfn` / `rxfn` /
+    error handler called from it): the statement raises `e`, in the environment of the call (the environment of the iteration with the
+    branch's local bound).  In this semantics a callee that raises has no effect on the environment (`simple2`): what the logic layer
+    did before raising is not visible - the `finally` block resets it anyway. -/
+theorem proc_raises_callee (hM : Spec M R) (hW : WorkerPrims M R) (hR : CoreRel R) (hD : WorkerRel R) {env0 env : Env} {t : TL}
+    (h : St R env0 env t) (hsr : t.ev.stopRequested = false) (e : PyExc)
+    (hfull : inCf t.core = false → ∀ (v : PV) (env1 : Env), R env1 t.core → env1 "#relay_queue" = some (.list (encQ t.relayQ)) →
+      M.proc "super().process" [v] env1 = .error (.exc e))
+    (htx : inCf t.core = true → ∀ (env1 : Env), R env1 t.core →
+      M.proc "super().process#do_rx#do_tx" [pbool false, pbool true] env1 = .error (.exc e))
+    (k : Nat) :
     ∃ env1, exec2S (k + 8) M env procStmt = .ok (.raised e.name env1) ∧ St R env0 env1 t := by
   cases hcf : inCf t.core with
   | false =>
-    have hps : procStep t =
-        { t with core := ((feed t.core t.relayQ).process true true).1, relayQ := (TL.takeUntilNone t.relayQ).2 } := by
-      simp [procStep, hcf]
-    rw [hps] at hexc
     obtain ⟨rt, hrt⟩ := eval_rxTimeout hM hW h.w
     have h1 := h.setLocal hR "rx_timeout" (pint rt) (by decide)
-    have hp := hW.processFullRaises (env.set "rx_timeout" (pint rt)) t.core t.relayQ (pint rt) e h1.c h1.w.q hexc
+    have hp := hfull hcf (pint rt) (env.set "rx_timeout" (pint rt)) h1.c h1.w.q
     refine ⟨_, ?_, h1⟩
     unfold procStmt
     rw [exec2S_ite_bool (k + 7) M env _ _ _ _ (eval_inCf hW env _ h.c), hcf]
@@ -695,10 +753,8 @@ theorem proc_raises (hM : Spec M R) (hW : WorkerSpec M R) (hR : CoreRel R) (hD :
     exact exec2B_cons_raised (n := k + 5) (exec2S_simple_exc (k + 4) M _ _ e rfl
       (exec_proc1_err M _ _ _ _ _ (by decide) (eval_var M _ _ _ (by simp [Env.set])) hp))
   | true =>
-    have hps : procStep t = { t with core := (t.core.process false true).1 } := by simp [procStep, hcf]
-    rw [hps] at hexc
     obtain ⟨d, h1, x1, x2, x3⟩ := cf_prefix hW hD h hcf
-    have hp := hW.processTxOnlyRaises (env.set "delay" (pint d)) t.core e h1.c hexc
+    have hp := htx hcf (env.set "delay" (pint d)) h1.c
     refine ⟨_, ?_, h1⟩
     unfold procStmt
     rw [exec2S_ite_bool (k + 7) M env _ _ _ _ (eval_inCf hW env _ h.c), hcf]
@@ -715,10 +771,15 @@ theorem proc_raises (hM : Spec M R) (hW : WorkerSpec M R) (hR : CoreRel R) (hD :
       (exec_proc2_err M _ _ _ _ _ _ _ (by decide) (eval_ff M _) (eval_tt M _) hp))
 
 /-- the loop, when the `process` call of the current iteration raises: the exception leaves the loop -/
-theorem worker_loop_raises (hM : Spec M R) (hW : WorkerSpec M R) (hR : CoreRel R) (hD : WorkerRel R) {env0 env : Env} {t : TL}
-    (h : St R env0 env t) (hsr : t.ev.stopRequested = false) (e : PyExc) (hexc : (procStep t).core.exc = some e) (k : Nat) :
+theorem worker_loop_raises_callee (hM : Spec M R) (hW : WorkerPrims M R) (hR : CoreRel R) (hD : WorkerRel R) {env0 env : Env} {t : TL}
+    (h : St R env0 env t) (hsr : t.ev.stopRequested = false) (e : PyExc)
+    (hfull : inCf t.core = false → ∀ (v : PV) (env1 : Env), R env1 t.core → env1 "#relay_queue" = some (.list (encQ t.relayQ)) →
+      M.proc "super().process" [v] env1 = .error (.exc e))
+    (htx : inCf t.core = true → ∀ (env1 : Env), R env1 t.core →
+      M.proc "super().process#do_rx#do_tx" [pbool false, pbool true] env1 = .error (.exc e))
+    (k : Nat) :
     ∃ env1, exec2S (k + 10) M env workerLoop = .ok (.raised e.name env1) ∧ St R env0 env1 t := by
-  obtain ⟨env1, x1, h1⟩ := proc_raises hM hW hR hD h hsr e hexc k
+  obtain ⟨env1, x1, h1⟩ := proc_raises_callee hM hW hR hD h hsr e hfull htx k
   refine ⟨env1, ?_, h1⟩
   have hc := eval_workerCond hM env false (hsr ▸ h.w.e3)
   unfold workerLoop
@@ -726,6 +787,20 @@ theorem worker_loop_raises (hM : Spec M R) (hW : WorkerSpec M R) (hR : CoreRel R
   simp only [truthy_pbool, Bool.not_false]
   unfold workerBody
   rw [exec2B_cons_raised (n := k + 8) x1]
+
+/-- ... in particular when the MODEL says the `process` call raises (`WorkerSpec.process...Raises`) -/
+theorem worker_loop_raises (hM : Spec M R) (hW : WorkerSpec M R) (hR : CoreRel R) (hD : WorkerRel R) {env0 env : Env} {t : TL}
+    (h : St R env0 env t) (hsr : t.ev.stopRequested = false) (e : PyExc) (hexc : (procStep t).core.exc = some e) (k : Nat) :
+    ∃ env1, exec2S (k + 10) M env workerLoop = .ok (.raised e.name env1) ∧ St R env0 env1 t := by
+  refine worker_loop_raises_callee hM hW.toWorkerPrims hR hD h hsr e (fun hcf v env1 r1 q1 => ?_) (fun hcf env1 r1 => ?_) k
+  · have hps : procStep t =
+        { t with core := ((feed t.core t.relayQ).process true true).1, relayQ := (TL.takeUntilNone t.relayQ).2 } := by
+      simp [procStep, hcf]
+    rw [hps] at hexc
+    exact hW.processFullRaises env1 t.core t.relayQ v e r1 q1 hexc
+  · have hps : procStep t = { t with core := (t.core.process false true).1 } := by simp [procStep, hcf]
+    rw [hps] at hexc
+    exact hW.processTxOnlyRaises env1 t.core e r1 hexc
 
 /-! ### the function: ready flag, loop, `finally` -/
 
@@ -888,6 +963,63 @@ theorem worker_raises_finally (hM : Spec M R) (hW : WorkerSpec M R) (hR : CoreRe
   refine ⟨env2, fun n hn => ?_, h2.shows, h2.keep⟩
   exact run2_mono_le hn M env _ _ (worker_fn_of_loop_raised hM env e1 env2 e.name 9 x1 x2)
 
+/-- **(c) the same for ANY exception of the callee** (not only those the model knows: the user's `txfn`, `rxfn`, error handler run inside
+    `super().process`): if the `process` call of the first pass raises `e`, the function ends `raised e`, the `finally` block having run -/
+theorem worker_raises_finally_callee (hM : Spec M R) (hP : WorkerPrims M R) (hR : CoreRel R) (hD : WorkerRel R) (env : Env) (t : TL)
+    (h : Shows R env t) (hsr : t.ev.stopRequested = false) (e : PyExc)
+    (hfull : inCf t.core = false → ∀ (v : PV) (env1 : Env), R env1 t.core → env1 "#relay_queue" = some (.list (encQ t.relayQ)) →
+      M.proc "super().process" [v] env1 = .error (.exc e))
+    (htx : inCf t.core = true → ∀ (env1 : Env), R env1 t.core →
+      M.proc "super().process#do_rx#do_tx" [pbool false, pbool true] env1 = .error (.exc e)) :
+    ∃ env', (∀ n, 14 ≤ n → run2 n M env Src.TransportLayer_p_main_thread_fn = .ok (.raised e.name env')) ∧
+      Shows R env' (exited (ready t)) ∧ ∀ p ∈ passiveKeys, env' p = env p := by
+  have h1 := St.ready hR h
+  obtain ⟨e1, x1, h1'⟩ := worker_loop_raises_callee hM hP hR hD h1 hsr e hfull htx 0
+  obtain ⟨env2, x2, r2, f2⟩ := hM.superReset _ _ h1'.c
+  have h2 := h1'.congr env2 _ f2 r2
+  refine ⟨env2, fun n hn => ?_, h2.shows, h2.keep⟩
+  exact run2_mono_le hn M env _ _ (worker_fn_of_loop_raised hM env e1 env2 e.name 9 x1 x2)
+
+/-- `k` undisturbed passes -/
+def iterN : Nat → TL → TL
+  | 0, t => t
+  | k + 1, t => iterN k (workerIter false t)
+
+def IterOk : Nat → TL → Prop
+  | 0, _ => True
+  | k + 1, t => (procStep t).core.exc = none ∧ IterOk k (workerIter false t)
+
+/-- the loop when the model's `process` raises in pass `k + 1`, after `k` undisturbed passes (the schedule counter is large enough: no
+    stop request arrives before) -/
+theorem worker_loop_raises_after (hM : Spec M R) (hW : WorkerSpec M R) (hR : CoreRel R) (hD : WorkerRel R) (e : PyExc) :
+    ∀ (k j : Nat) (env0 env : Env) (t : TL), St R env0 env t → t.ev.stopRequested = false →
+      env "#sched" = some (pint ((j + k + 1 : Nat) : Int)) → IterOk k t → (procStep (iterN k t)).core.exc = some e →
+      ∃ env1, exec2S (k + 12) M env workerLoop = .ok (.raised e.name env1) ∧ St R env0 env1 (iterN k t)
+  | 0, _, _, _, _, h, hsr, _, _, hexc => worker_loop_raises hM hW hR hD h hsr e hexc 2
+  | k + 1, j, env0, env, t, h, hsr, hs, hok, hexc => by
+    have ha : arrives env = false := by
+      simp only [arrives, hs, decide_eq_false_iff_not, Option.some.injEq]
+      exact pint_succ_ne_zero (j + (k + 1))
+    obtain ⟨env', x1, x3, x4⟩ := worker_iteration_st hM hW hR hD h hsr hok.1
+    rw [ha] at x1
+    obtain ⟨env1, y1, y2⟩ := worker_loop_raises_after hM hW hR hD e k j env0 env' _ x1
+      (by rw [workerIter_sr]; simpa using hsr) (x3 (j + k + 1) hs) hok.2 hexc
+    exact ⟨env1, (x4 (k + 12) (by omega)).trans y1, y2⟩
+
+/-- **(c) an exception in a later pass**: `k` passes, then the model's `process` raises `e`: the function ends `raised e`, the logic layer
+    reset by the `finally` block -/
+theorem worker_raises_finally_after (hM : Spec M R) (hW : WorkerSpec M R) (hR : CoreRel R) (hD : WorkerRel R) (k j : Nat) (env : Env)
+    (t : TL) (h : Shows R env t) (hsr : t.ev.stopRequested = false) (hs : env "#sched" = some (pint ((j + k + 1 : Nat) : Int)))
+    (hok : IterOk k (ready t)) (e : PyExc) (hexc : (procStep (iterN k (ready t))).core.exc = some e) :
+    ∃ env', (∀ n, k + 16 ≤ n → run2 n M env Src.TransportLayer_p_main_thread_fn = .ok (.raised e.name env')) ∧
+      Shows R env' (exited (iterN k (ready t))) ∧ ∀ p ∈ passiveKeys, env' p = env p := by
+  have h1 := St.ready hR h
+  obtain ⟨e1, x1, h1'⟩ := worker_loop_raises_after hM hW hR hD e k j _ _ _ h1 hsr (by simp [Env.set, hs]) hok hexc
+  obtain ⟨env2, x2, r2, f2⟩ := hM.superReset _ _ h1'.c
+  have h2 := h1'.congr env2 _ f2 r2
+  refine ⟨env2, fun n hn => ?_, h2.shows, h2.keep⟩
+  exact run2_mono_le hn M env _ _ (worker_fn_of_loop_raised hM env e1 env2 e.name (k + 11) x1 x2)
+
 end whole
 
 
@@ -963,6 +1095,12 @@ theorem procStep_cf_ne_workerStep (t : TL) (hm : t.mainThread = .running) (hsr :
   rw [← h2, ← he, h1] at this
   omega
 
+/-- the class is not empty -/
+example : ∃ t : TL, t.mainThread = .running ∧ t.ev.stopRequested = false ∧ inCf t.core = true ∧ t.relayQ ≠ [] ∧
+    procStep t ≠ TL.workerStep t := by
+  let t : TL := { core := { (default : State) with txState := .transmitCf }, mainThread := Isotp.Thr.running, relayQ := [none] }
+  exact ⟨t, rfl, rfl, rfl, by simp [t], (procStep_cf_ne_workerStep t rfl rfl rfl (by simp [t])).2.2⟩
+
 section gap
 variable {M : Meths} {R : Env → State → Prop}
 
@@ -992,4 +1130,536 @@ theorem cf_iteration_not_workerStep (hM : Spec M R) (hW : WorkerSpec M R) (hR : 
 
 end gap
 
+
+/-! ## 10. the assumptions are satisfiable: a concrete world for the worker
+
+  The world of Threaded.lean (`thrMeths`, `R0`: the logic layer shown by its two FSM states) extended with the callees of the worker.
+  A `Meths` is a function of the ENVIRONMENT, and `R0` does not determine the logic-layer state, so `super().process` cannot compute
+  `State.process` of an arbitrary state from it; the world is therefore restricted to a class of logic-layer states on which
+  `State.process` is computed by hand and which every operation of the worker preserves: `Quiet` - idle in both directions, nothing
+  queued, no timer running, and a receive address that matches no frame (`rxid = None`).  On that class the full branch is exercised
+  with ARBITRARY relay queues (frames are read up to the first token and ignored), under every schedule.  The streaming branch
+  (`inCf`) does not occur in the class: for it the theorems are checked against the specification only. -/
+
+structure Quiet (s : State) : Prop where
+  tx : s.txState = .idle
+  rx : s.rxState = .idle
+  q : s.txQueue = []
+  pf : s.pendingFc = false
+  fc : s.lastFc = none
+  tfc : s.timerFc.start = none
+  tcf : s.timerCf.start = none
+  exc : s.exc = none
+  mode : s.addr.rx.mode = .n11
+  rxid : s.addr.rx.rxid = none
+
+theorem Quiet.upd {s : State} (h : Quiet s) (ib : List (Nat × CanMsg)) (now : Nat) (log : List Ev) (rl : Limiter) :
+    Quiet { s with inbox := ib, now := now, log := log, rl := rl } :=
+  ⟨h.tx, h.rx, h.q, h.pf, h.fc, h.tfc, h.tcf, h.exc, h.mode, h.rxid⟩
+
+theorem Quiet.notForMe {s : State} (h : Quiet s) (m : CanMsg) : s.addr.rx.isForMe m = false := by
+  simp [Half.isForMe, h.mode, h.rxid, Mode.is29]
+
+theorem Quiet.checkTimeoutsRx {s : State} (h : Quiet s) : s.checkTimeoutsRx = s := by
+  simp [State.checkTimeoutsRx, Timer.timedOut, h.tcf]
+
+theorem Quiet.txTimeDriven {s : State} (h : Quiet s) : s.txTimeDriven = false := by
+  simp [State.txTimeDriven, h.tx]
+
+theorem Quiet.rxLoop : ∀ (ib : List (Nat × CanMsg)) (s : State) (st : Stats), Quiet s →
+    ∃ s' st', s.rxLoop true st ib = (s', st', false) ∧ Quiet s'
+  | [], s, st, h => by
+    have hq : Quiet (({ s with inbox := [] } : State).emit (.rxNone s.now)) := h.upd [] s.now (.rxNone s.now :: s.log) s.rl
+    have e := hq.checkTimeoutsRx
+    refine ⟨_, st, ?_, hq⟩
+    rw [State.rxLoop]
+    exact congrArg (fun x => (x, st, false)) e
+  | (dt, m) :: rest, s, st, h => by
+    have h2 : Quiet (({ s with inbox := rest, now := s.now + dt } : State).emit (.rx (s.now + dt) m)) :=
+      h.upd rest (s.now + dt) _ s.rl
+    have e := h2.checkTimeoutsRx
+    have hq2 : Quiet (({ s with inbox := rest, now := s.now + dt } : State).emit (.rx (s.now + dt) m)).checkTimeoutsRx := e.symm ▸ h2
+    obtain ⟨s', st', x, hq⟩ := Quiet.rxLoop rest _ { st with received := st.received + 1 } hq2
+    refine ⟨s', st', ?_, hq⟩
+    rw [State.rxLoop]
+    split
+    · next hx => exact absurd (hx.symm.trans (hq2.notForMe m)) (by simp)
+    · split
+      · next hx =>
+        have hx' : (true && (({ s with inbox := rest, now := s.now + dt } : State).emit (.rx (s.now + dt) m)).checkTimeoutsRx.txTimeDriven) = true := hx
+        rw [hq2.txTimeDriven] at hx'
+        cases hx'
+      · exact x
+
+
+theorem Quiet.processTx {s : State} (h : Quiet s) : ∃ s', s.processTx = (s', none, false) ∧ Quiet s' := by
+  refine ⟨{ s with lastFc := none, txQueue := [] }, ?_, ⟨h.tx, h.rx, rfl, h.pf, rfl, h.tfc, h.tcf, h.exc, h.mode, h.rxid⟩⟩
+  simp [State.processTx, h.pf, h.fc, h.tfc, Timer.timedOut, h.tx, State.readTxQueue, h.q, h.exc]
+
+theorem Quiet.txLoop {s : State} (h : Quiet s) (f n : Nat) : ∃ s', State.txLoop (f + 1) s n = (s', n, false, false) ∧ Quiet s' := by
+  obtain ⟨s', x, hq⟩ := h.processTx
+  refine ⟨s', ?_, hq⟩
+  rw [State.txLoop]
+  simp [x, hq.exc]
+
+theorem Quiet.processLoop {s : State} (h : Quiet s) (f : Nat) (doRx : Bool) (st : Stats) :
+    ∃ s' st', State.processLoop (f + 1) doRx true s st = (s', st', false) ∧ Quiet s' := by
+  have hrx : ∃ s1 st1, (if doRx then s.rxLoop true st s.inbox else (s, st, false)) = (s1, st1, false) ∧ Quiet s1 := by
+    cases doRx
+    · exact ⟨s, st, rfl, h⟩
+    · exact Quiet.rxLoop _ _ _ h
+  obtain ⟨s1, st1, x1, h1⟩ := hrx
+  have h2 : Quiet { s1 with rl := s1.rl.update s1.cfg.rlWindowNs s1.now } := h1.upd s1.inbox s1.now s1.log _
+  obtain ⟨f2, hf2⟩ : ∃ f2, ({ s1 with rl := s1.rl.update s1.cfg.rlWindowNs s1.now } : State).txFuel = f2 + 1 := ⟨_, rfl⟩
+  obtain ⟨s3, x3, h3⟩ := h2.txLoop f2 st1.sent
+  refine ⟨s3, { st1 with sent := st1.sent }, ?_, h3⟩
+  rw [State.processLoop]
+  simp only [h.q, List.isEmpty_nil, Bool.not_true, Bool.and_false, Bool.false_and, Bool.not_false, Bool.and_true]
+  simp only [x1, hf2, x3]
+  simp
+
+theorem Quiet.process {s : State} (h : Quiet s) (doRx : Bool) : Quiet (s.process doRx true).1 := by
+  obtain ⟨s', st', x, hq⟩ := h.processLoop (2 * (s.inbox.length + s.txQueue.length) + 7) doRx {}
+  have : s.process doRx true = (s', st', false) := x
+  rw [this]; exact hq
+
+theorem Quiet.stopSending {s : State} (h : Quiet s) (b : Bool) : Quiet (s.stopSending b) := by
+  cases ha : s.active <;> simp only [State.stopSending, ha, State.emit, Timer.stop] <;>
+    exact ⟨rfl, h.rx, h.q, h.pf, h.fc, rfl, h.tcf, h.exc, h.mode, h.rxid⟩
+
+theorem Quiet.stopReceiving {s : State} (h : Quiet s) : Quiet s.stopReceiving :=
+  ⟨h.tx, rfl, h.q, rfl, rfl, h.tfc, rfl, h.exc, h.mode, h.rxid⟩
+
+theorem Quiet.reset {s : State} (h : Quiet s) : Quiet s.reset := by
+  have h1 : Quiet (({ s with rxQueue := [] } : State).clearTxQueue s.txQueue) := by
+    rw [h.q]; exact ⟨h.tx, h.rx, rfl, h.pf, h.fc, h.tfc, h.tcf, h.exc, h.mode, h.rxid⟩
+  have h2 := (h1.stopSending false).stopReceiving
+  exact h2.upd _ _ _ _
+
+
+/-- the relation of the world: the two FSM states, on a quiet logic layer -/
+def Rq (env : Env) (s : State) : Prop := R0 env s ∧ Quiet s
+
+theorem Rq_coreRel : CoreRel Rq where
+  frame := fun env k v s hk h => ⟨R0_coreRel.frame env k v s hk h.1, h.2⟩
+  inbox := fun _ s ib h => ⟨h.1, h.2.upd ib s.now s.log s.rl⟩
+
+theorem Rq_workerRel : WorkerRel Rq where
+  delay := fun env v s h => ⟨⟨by simp [Env.set, h.1.1], by simp [Env.set, h.1.2]⟩, h.2⟩
+
+/-- the encoded relay queue after its items up to and including the first `None` token have been read -/
+def dropToNone : Nat → List Sc → List Sc
+  | 0, xs => xs
+  | f + 1, xs =>
+    match takeItem xs with
+    | some (item, rest) => if item = [Sc.py .none] then rest else dropToNone f rest
+    | none => xs
+
+theorem dropToNone_enc : ∀ (q : List (Option CanMsg)) (f : Nat), q.length ≤ f →
+    dropToNone f (encQ q) = encQ (TL.takeUntilNone q).2
+  | [], f, _ => by cases f <;> rfl
+  | none :: rest, f, hf => by
+    obtain ⟨f', rfl⟩ : ∃ f', f = f' + 1 := ⟨f - 1, by simp only [List.length_cons] at hf; omega⟩
+    rw [encQ_cons, dropToNone, takeItem_enc]
+    rfl
+  | some m :: rest, f, hf => by
+    obtain ⟨f', rfl⟩ : ∃ f', f = f' + 1 := ⟨f - 1, by simp only [List.length_cons] at hf; omega⟩
+    rw [encQ_cons, dropToNone, takeItem_enc, tun_cons_some]
+    have hne : encItem (some m) ≠ [Sc.py .none] := by simp [encItem, encMsg]
+    simp only [hne, if_false]
+    exact dropToNone_enc rest f' (by simp only [List.length_cons] at hf; omega)
+
+/-- the schedule counter after a `process` call -/
+def schedNext : Option PV → Option PV
+  | some (.sc (.py (.int (.ofNat (n + 1))))) => some (pint (n : Int))
+  | x => x
+
+def schedDec (env0 env : Env) : Env := fun k => if k = "#sched" then schedNext (env0 "#sched") else env k
+
+/-- a `process` call of the logic layer in the world: the relay queue becomes `xs'`, the other thread's `stop()` arrives if scheduled, the
+    counter goes down; the (quiet) logic layer stays as it is -/
+def wAfter (env : Env) (xs' : List Sc) : Env :=
+  schedDec env (if arrives env then (env.set "#relay_queue" (.list (xs' ++ [.py .none]))).set "#ev.stop_requested" (pbool true)
+    else env.set "#relay_queue" (.list xs'))
+
+def wProcFull (env : Env) : Except PErr Env :=
+  match env "#relay_queue" with
+  | some (.list xs) => .ok (wAfter env (dropToNone xs.length xs))
+  | _ => .error (.exc .AttributeError)
+
+def wProcTx (env : Env) : Except PErr Env :=
+  match env "#relay_queue" with
+  | some (.list xs) => .ok (wAfter env xs)
+  | _ => .error (.exc .AttributeError)
+
+def wFn (name : String) (args : List PV) (env : Env) : Except PErr PV :=
+  match name, args with
+  | "self.is_rx_active", [] => .ok (pbool false)
+  | "self.is_tx_transmitting_cf", [] => .ok (pbool false)
+  | "self.next_cf_delay", [] => .ok (pint 0)
+  | n, a => thrFn n a env
+
+def wProc (name : String) (args : List PV) (env : Env) : Except PErr Env :=
+  match name, args with
+  | "super().process", [_] => wProcFull env
+  | "super().process#do_rx#do_tx", [_, _] => wProcTx env
+  | "self.params.wait_func", [_] => .ok env
+  | n, a => thrProc n a env
+
+def wMeths : Meths := { fn := wFn, proc := wProc }
+
+def wProcNames : List String := ["super().process", "super().process#do_rx#do_tx", "self.params.wait_func"]
+def wFnNames : List String := ["self.is_rx_active", "self.is_tx_transmitting_cf", "self.next_cf_delay"]
+
+theorem wProc_other (n : String) (a : List PV) (env : Env) (h : n ∉ wProcNames) : wMeths.proc n a env = thrMeths.proc n a env := by
+  simp only [wProcNames, List.mem_cons, List.not_mem_nil, or_false, not_or] at h
+  show wProc n a env = thrProc n a env
+  unfold wProc
+  split <;> simp_all
+
+theorem wFn_other (n : String) (a : List PV) (env : Env) (h : n ∉ wFnNames) : wMeths.fn n a env = thrMeths.fn n a env := by
+  simp only [wFnNames, List.mem_cons, List.not_mem_nil, or_false, not_or] at h
+  show wFn n a env = thrFn n a env
+  unfold wFn
+  split <;> simp_all
+
+
+/-- the names `Spec` mentions -/
+def specProcNames : List String :=
+  ["self.events.main_thread_ready.set", "self.events.relay_thread_ready.set", "self.events.stop_requested.set",
+   "self.events.reset_tx.set", "self.events.reset_rx.set", "self.events.reset_tx_complete.set", "self.events.reset_rx_complete.set",
+   "self.events.main_thread_ready.clear", "self.events.relay_thread_ready.clear", "self.events.stop_requested.clear",
+   "self.events.reset_tx.clear", "self.events.reset_rx.clear", "self.events.reset_tx_complete.clear",
+   "self.events.reset_rx_complete.clear",
+   "self.events.main_thread_ready.wait", "self.events.relay_thread_ready.wait", "self.events.stop_requested.wait",
+   "self.events.reset_tx.wait", "self.events.reset_rx.wait", "self.events.reset_tx_complete.wait", "self.events.reset_rx_complete.wait",
+   "self.rx_relay_queue.put", "self.rx_relay_queue.get", "self._set_rxfn", "self.main_thread.start", "self.relay_thread.start",
+   "self.main_thread.join", "self.relay_thread.join#timeout", "super().reset", "self._stop_sending#success", "self._stop_receiving"]
+def specFnNames : List String :=
+  ["self.events.main_thread_ready.is_set", "self.events.relay_thread_ready.is_set", "self.events.stop_requested.is_set",
+   "self.events.reset_tx.is_set", "self.events.reset_rx.is_set", "self.events.reset_tx_complete.is_set",
+   "self.events.reset_rx_complete.is_set", "__float__", "self.rx_relay_queue.empty", "threading.Thread#target#daemon",
+   "self.main_thread.is_alive", "self.relay_thread.is_alive"]
+
+/-- the lifecycle assumptions of Threaded.lean hold, on the quiet class, for every `Meths` that agrees with `thrMeths` on the names they
+    mention -/
+theorem spec_of_agree (M' : Meths) (hp : ∀ n a env, n ∈ specProcNames → M'.proc n a env = thrMeths.proc n a env)
+    (hf : ∀ n a env, n ∈ specFnNames → M'.fn n a env = thrMeths.fn n a env) : Spec M' Rq where
+  evSet := fun e env => (hp _ _ _ (by cases e <;> decide)).trans (thrMeths_spec.evSet e env)
+  evClear := fun e env => (hp _ _ _ (by cases e <;> decide)).trans (thrMeths_spec.evClear e env)
+  evIsSet := fun e env b h => (hf _ _ _ (by cases e <;> decide)).trans (thrMeths_spec.evIsSet e env b h)
+  waitSet := fun e env v h => (hp _ _ _ (by cases e <;> decide)).trans (thrMeths_spec.waitSet e env v h)
+  float := fun s env => by
+    obtain ⟨i, hi⟩ := thrMeths_spec.float s env
+    exact ⟨i, (hf _ _ _ (by decide)).trans hi⟩
+  qPutNone := fun env q h => (hp _ _ _ (by decide)).trans (thrMeths_spec.qPutNone env q h)
+  qEmpty := fun env q h => (hf _ _ _ (by decide)).trans (thrMeths_spec.qEmpty env q h)
+  qGet := fun env x q h => (hp _ _ _ (by decide)).trans (thrMeths_spec.qGet env x q h)
+  setRxfn := fun env x => (hp _ _ _ (by decide)).trans (thrMeths_spec.setRxfn env x)
+  thrNew := fun env tgt => (hf _ _ _ (by decide)).trans (thrMeths_spec.thrNew env tgt)
+  startMain := fun env h => (hp _ _ _ (by decide)).trans (thrMeths_spec.startMain env h)
+  startRelay := fun env h => (hp _ _ _ (by decide)).trans (thrMeths_spec.startRelay env h)
+  aliveMain := fun env b h => (hf _ _ _ (by decide)).trans (thrMeths_spec.aliveMain env b h)
+  aliveRelay := fun env b h => (hf _ _ _ (by decide)).trans (thrMeths_spec.aliveRelay env b h)
+  joinDeadMain := fun env v h => (hp _ _ _ (by decide)).trans (thrMeths_spec.joinDeadMain env v h)
+  joinDeadRelay := fun env v h => (hp _ _ _ (by decide)).trans (thrMeths_spec.joinDeadRelay env v h)
+  hJoin := fun env v q hA hS hQ => by
+    obtain ⟨env', h1, h2, h3⟩ := thrMeths_spec.hJoin env v q hA hS hQ
+    exact ⟨env', (hp _ _ _ (by decide)).trans h1, h2, h3⟩
+  hJoinRelay := fun env v hA hS => (hp _ _ _ (by decide)).trans (thrMeths_spec.hJoinRelay env v hA hS)
+  hWorkerExit := fun env env' v s hR hA hj hd =>
+    ⟨thrMeths_spec.hWorkerExit env env' v s hR.1 hA ((hp _ _ _ (by decide)).symm.trans hj) hd, hR.2.reset⟩
+  hReady := fun env v h => (hp _ _ _ (by decide)).trans (thrMeths_spec.hReady env v h)
+  hReadyRelay := fun env v h => (hp _ _ _ (by decide)).trans (thrMeths_spec.hReadyRelay env v h)
+  hServe := fun env v s hR hA hS hT hC => by
+    obtain ⟨env', h1, h2, h3, h4, h5⟩ := thrMeths_spec.hServe env v s hR.1 hA hS hT hC
+    exact ⟨env', (hp _ _ _ (by decide)).trans h1, ⟨h2, hR.2.stopSending false⟩, h3, h4, h5⟩
+  hServeRx := fun env v s hR hA hS hT hC => by
+    obtain ⟨env', h1, h2, h3, h4, h5⟩ := thrMeths_spec.hServeRx env v s hR.1 hA hS hT hC
+    exact ⟨env', (hp _ _ _ (by decide)).trans h1, ⟨h2, hR.2.stopReceiving⟩, h3, h4, h5⟩
+  superReset := fun env s hR => by
+    obtain ⟨env', h1, h2, h3⟩ := thrMeths_spec.superReset env s hR.1
+    exact ⟨env', (hp _ _ _ (by decide)).trans h1, ⟨h2, hR.2.reset⟩, h3⟩
+  stopSendingCore := fun env s hR => by
+    obtain ⟨env', h1, h2, h3⟩ := thrMeths_spec.stopSendingCore env s hR.1
+    exact ⟨env', (hp _ _ _ (by decide)).trans h1, ⟨h2, hR.2.stopSending false⟩, h3⟩
+  stopReceivingCore := fun env s hR => by
+    obtain ⟨env', h1, h2, h3⟩ := thrMeths_spec.stopReceivingCore env s hR.1
+    exact ⟨env', (hp _ _ _ (by decide)).trans h1, ⟨h2, hR.2.stopReceiving⟩, h3⟩
+
+
+theorem wMeths_spec : Spec wMeths Rq :=
+  spec_of_agree wMeths
+    (fun n a env hn => wProc_other n a env (by revert n; decide))
+    (fun n a env hn => wFn_other n a env (by revert n; decide))
+
+theorem schedDec_other (env0 env : Env) (k : String) (h : k ≠ "#sched") : schedDec env0 env k = env k := by
+  simp [schedDec, h]
+
+theorem wAfter_other (env : Env) (xs' : List Sc) (k : String) (h1 : k ≠ "#sched") (h2 : k ≠ "#relay_queue")
+    (h3 : k ≠ "#ev.stop_requested") : wAfter env xs' k = env k := by
+  unfold wAfter
+  rw [schedDec_other _ _ _ h1]
+  split <;> simp [Env.set, h2, h3]
+
+theorem wAfter_wrapper (env : Env) (q' : List (Option CanMsg)) (k : String) (hk : k ∈ wrapperKeys) :
+    wAfter env (encQ q') k = afterCall env q' k := by
+  have h1 : k ≠ "#sched" := by intro e; subst e; revert hk; decide
+  unfold wAfter afterCall
+  rw [schedDec_other _ _ _ h1]
+  have : encQ (q' ++ [none]) = encQ q' ++ [Sc.py .none] := by rw [encQ_append]; rfl
+  rw [this]
+
+theorem wAfter_sched (env : Env) (xs' : List Sc) : SchedStep env (wAfter env xs') := by
+  intro n hn
+  have : wAfter env xs' "#sched" = schedNext (env "#sched") := by simp [wAfter, schedDec]
+  rw [this, hn]
+  rfl
+
+theorem wAfter_Rq (env : Env) (xs' : List Sc) (s s' : State) (h : Rq env s) (h' : Quiet s') : Rq (wAfter env xs') s' := by
+  refine ⟨⟨?_, ?_⟩, h'⟩
+  · rw [wAfter_other env xs' _ (by decide) (by decide) (by decide), h.1.1, h.2.tx, h'.tx]
+  · rw [wAfter_other env xs' _ (by decide) (by decide) (by decide), h.1.2, h.2.rx, h'.rx]
+
+theorem Quiet.feed {s : State} (h : Quiet s) (q : List (Option CanMsg)) : Quiet (feed s q) := h.upd _ s.now s.log s.rl
+
+theorem coreIdle_sched (env : Env) (tx rx : Bool) : coreIdle env tx rx "#sched" = env "#sched" := by
+  cases tx <;> cases rx <;> simp [coreIdle, Env.set]
+
+/-- the worker's assumptions hold in the world, on the quiet class -/
+theorem wMeths_worker : WorkerSpec wMeths Rq where
+  rxActive := fun env s h => by
+    show (Except.ok (pbool false) : Except PErr PV) = _
+    simp [State.isRxActive, h.2.rx]
+  txCf := fun env s h => by
+    show (Except.ok (pbool false) : Except PErr PV) = _
+    simp [h.2.tx]
+  cfDelay := fun _ _ _ _ => ⟨0, rfl⟩
+  waitFunc := fun _ _ => rfl
+  throttled := fun _ => ⟨false, rfl⟩
+  processFull := by
+    intro env s q v h hq _
+    have hQ := (h.2.feed q).process true
+    refine ⟨wAfter env (encQ (TL.takeUntilNone q).2), ?_, wAfter_Rq env _ s _ h hQ, fun k hk => wAfter_wrapper env _ k hk,
+      wAfter_sched env _⟩
+    show wProcFull env = _
+    unfold wProcFull
+    rw [hq]
+    simp only [dropToNone_enc q _ (encQ_length_ge q)]
+  processFullRaises := by
+    intro env s q v e h _ hx
+    have hQ := (h.2.feed q).process true
+    rw [hQ.exc] at hx
+    cases hx
+  processTxOnly := by
+    intro env s q h hq _
+    have hQ := h.2.process false
+    refine ⟨wAfter env (encQ q), ?_, wAfter_Rq env _ s _ h hQ, fun k hk => wAfter_wrapper env _ k hk, wAfter_sched env _⟩
+    show wProcTx env = _
+    unfold wProcTx
+    rw [hq]
+  processTxOnlyRaises := by
+    intro env s e h hx
+    have hQ := h.2.process false
+    rw [hQ.exc] at hx
+    cases hx
+  schedStopSending := by
+    intro env env' h
+    have h' : (Except.ok (coreIdle env true false) : Except PErr Env) = .ok env' := h
+    simp only [Except.ok.injEq] at h'
+    subst h'
+    exact coreIdle_sched env true false
+  schedStopReceiving := by
+    intro env env' h
+    have h' : (Except.ok (coreIdle env false true) : Except PErr Env) = .ok env' := h
+    simp only [Except.ok.injEq] at h'
+    subst h'
+    exact coreIdle_sched env false true
+
+
+/-! ### environments of the world; every theorem applies to every wrapper state with a quiet logic layer -/
+
+theorem Quiet.inCf {s : State} (h : Quiet s) : inCf s = false := by simp [Thr.inCf, h.tx]
+
+theorem Quiet.procStep {t : TL} (h : Quiet t.core) : Quiet (procStep t).core := by
+  unfold Thr.procStep
+  split
+  · exact h.process false
+  · exact (h.feed _).process true
+
+theorem Quiet.workerIter (b : Bool) {t : TL} (h : Quiet t.core) : Quiet (workerIter b t).core := by
+  have h1 : Quiet (stopArrives b (Thr.procStep t)).core := by
+    unfold stopArrives; split <;> exact h.procStep
+  have h2 : Quiet (serveTx (stopArrives b (Thr.procStep t))).core := by
+    unfold serveTx; split
+    · exact h1.stopSending false
+    · exact h1
+  unfold Thr.workerIter serveRx
+  split
+  · exact h2.stopReceiving
+  · exact h2
+
+theorem RunOk_of_quiet : ∀ (k : Nat) (t : TL), Quiet t.core → RunOk k t
+  | 0, _, h => h.procStep.exc
+  | k + 1, _, h => ⟨h.procStep.exc, RunOk_of_quiet k _ (h.workerIter false)⟩
+
+/-- setting the schedule key does not change what is shown -/
+theorem Shows.setSched {env : Env} {t : TL} (h : Shows Rq env t) (v : PV) : Shows Rq (env.set "#sched" v) t := by
+  obtain ⟨⟨f1, f2, f3, f4, f5, f6, f7, f8, f9, f10, f11, f12, f13, f14, f15, f16, f17, f18, f19, f20⟩, hc⟩ := h
+  exact ⟨by constructor <;> simp [Env.set, *], ⟨⟨by simp [Env.set, hc.1.1], by simp [Env.set, hc.1.2]⟩, hc.2⟩⟩
+
+/-- the world environment of Threaded.lean shows `t` with the relation of this world when the logic layer is quiet; it has no schedule -/
+theorem worldEnv_showsq (t : TL) (hq : Quiet t.core) :
+    Shows Rq (worldEnv t false 0 true) t ∧ arrives (worldEnv t false 0 true) = false :=
+  ⟨⟨(worldEnv_shows t false 0 true).1.1, (worldEnv_shows t false 0 true).1.2, hq⟩, rfl⟩
+
+/-- a quiet logic layer exists: the initial state of a layer whose receive address has no `rxid` -/
+theorem quiet_default : Quiet (default : State) := ⟨rfl, rfl, rfl, rfl, rfl, rfl, rfl, rfl, rfl, rfl⟩
+
+/-- (b) one iteration IS `TL.workerStep`, for every such wrapper state with a running worker and no request pending - whatever the relay
+    queue holds -/
+example (t : TL) (hq : Quiet t.core) (hm : t.mainThread = .running) (hsr : t.ev.stopRequested = false)
+    (htx : t.ev.resetTx = false) (hrx : t.ev.resetRx = false) :
+    ∃ env', Shows Rq env' (TL.workerStep t) ∧ ∀ n, 12 ≤ n →
+      exec2S (n + 1) wMeths (worldEnv t false 0 true) workerLoop = exec2S n wMeths env' workerLoop := by
+  obtain ⟨env', h1, -, h3⟩ := worker_iteration_workerStep wMeths_spec wMeths_worker Rq_coreRel Rq_workerRel _ t
+    (worldEnv_showsq t hq).1 hm hsr hq.inCf htx hrx (worldEnv_showsq t hq).2
+    (by rw [← procStep_eq_workerStep t hm hsr hq.inCf]; exact hq.procStep.exc)
+  exact ⟨env', h1, h3⟩
+
+/-- (b) with requests pending: they are served in the same pass -/
+example (t : TL) (hq : Quiet t.core) (hsr : t.ev.stopRequested = false) :
+    ∃ env', Shows Rq env' (workerIter false t) ∧ ∀ n, 12 ≤ n →
+      exec2S (n + 1) wMeths (worldEnv t false 0 true) workerLoop = exec2S n wMeths env' workerLoop := by
+  obtain ⟨env', h1, -, -, h3⟩ := worker_iteration wMeths_spec wMeths_worker Rq_coreRel Rq_workerRel _ t
+    (worldEnv_showsq t hq).1 hsr hq.procStep.exc
+  rw [(worldEnv_showsq t hq).2] at h1
+  exact ⟨env', h1, h3⟩
+
+/-- (c) exit -/
+example (t : TL) (hq : Quiet t.core) (hsr : t.ev.stopRequested = true) :
+    ∃ env', (∀ n, 6 ≤ n → run2 n wMeths (worldEnv t false 0 true) Src.TransportLayer_p_main_thread_fn = .ok (.ret pnone env')) ∧
+      Shows Rq env' (exited (ready t)) := by
+  obtain ⟨env', h1, h2, -⟩ := worker_exits_on_stop wMeths_spec Rq_coreRel _ t (worldEnv_showsq t hq).1 hsr
+  exact ⟨env', h1, h2⟩
+
+/-- (d) every schedule -/
+example (t : TL) (hq : Quiet t.core) (hsr : t.ev.stopRequested = false) (k : Nat) :
+    ∃ env', (∀ n, k + 18 ≤ n → run2 n wMeths ((worldEnv t false 0 true).set "#sched" (pint (k : Int)))
+        Src.TransportLayer_p_main_thread_fn = .ok (.ret pnone env')) ∧
+      Shows Rq env' (exited (workerRun k (ready t))) := by
+  obtain ⟨env', h1, h2, -⟩ := worker_runs wMeths_spec wMeths_worker Rq_coreRel Rq_workerRel k _ t
+    ((worldEnv_showsq t hq).1.setSched (pint (k : Int))) hsr (by simp [Env.set]) (RunOk_of_quiet k _ hq)
+  exact ⟨env', h1, h2⟩
+
+/-! ### a world in which `super().process` raises (a user callback failing inside it): `worker_raises_finally_callee` applies -/
+
+def raiseProc (name : String) (args : List PV) (env : Env) : Except PErr Env :=
+  if name = "super().process" ∨ name = "super().process#do_rx#do_tx" then .error (.exc .ValueError) else wProc name args env
+
+def raiseMeths : Meths := { fn := wFn, proc := raiseProc }
+
+theorem raiseMeths_spec : Spec raiseMeths Rq :=
+  spec_of_agree raiseMeths
+    (fun n a env hn => by
+      have h1 : n ∉ ["super().process", "super().process#do_rx#do_tx"] := by revert n; decide
+      simp only [List.mem_cons, List.not_mem_nil, or_false] at h1
+      show raiseProc n a env = _
+      unfold raiseProc
+      rw [if_neg h1]
+      exact wProc_other n a env (by revert n; decide))
+    (fun n a env hn => wFn_other n a env (by revert n; decide))
+
+theorem raiseMeths_prims : WorkerPrims raiseMeths Rq where
+  rxActive := wMeths_worker.rxActive
+  txCf := wMeths_worker.txCf
+  cfDelay := wMeths_worker.cfDelay
+  waitFunc := fun _ _ => rfl
+  throttled := wMeths_worker.throttled
+
+example (t : TL) (hq : Quiet t.core) (hsr : t.ev.stopRequested = false) :
+    ∃ env', (∀ n, 14 ≤ n → run2 n raiseMeths (worldEnv t false 0 true) Src.TransportLayer_p_main_thread_fn =
+        .ok (.raised "ValueError" env')) ∧ Shows Rq env' (exited (ready t)) := by
+  obtain ⟨env', h1, h2, -⟩ := worker_raises_finally_callee raiseMeths_spec raiseMeths_prims Rq_coreRel Rq_workerRel _ t
+    (worldEnv_showsq t hq).1 hsr .ValueError (fun _ _ _ _ _ => rfl) (fun _ _ _ => rfl)
+  exact ⟨env', h1, h2⟩
+
+
+/-! ### ... and the world really runs: the kernel evaluates the interpreter on the dumped `_main_thread_fn`
+
+  A started layer, worker running, a `reset_tx` request pending, relay queue `[frame, None, frame]`, schedule 1 (the other thread's `stop()`
+  arrives during the second `process` call): two passes, then the exit.  Pass 1 reads `frame, None` and serves the request; pass 2 reads
+  the second frame (no token behind it: `get` times out) and comes back with `stop_requested` set and the token of `stop()` queued. -/
+
+def demoW : TL :=
+  { core := default, started := true, mainThread := Isotp.Thr.running, relayThread := Isotp.Thr.running,
+    relayQ := [some demoMsg, none, some demoMsg], ev := { relayReady := true, resetTx := true }, rxfnIsRelay := true }
+
+def demoWorker (M : Meths) (n : Nat) (k : Int) : Option (Option String) :=
+  match run2 n M ((worldEnv demoW false 0 true).set "#sched" (pint k)) Src.TransportLayer_p_main_thread_fn with
+  | .ok (.ret _ e) =>
+    if e "#ev.main_thread_ready" == some (pbool true) && e "#ev.stop_requested" == some (pbool true) &&
+      e "#ev.reset_tx" == some (pbool false) && e "#ev.reset_tx_complete" == some (pbool true) &&
+      e "#relay_queue" == some (.list [.py .none]) && e "self.tx_state" == some (txPV .idle) && e "#sched" == some (pint 0)
+    then some none else none
+  | .ok (.raised x e) =>
+    if e "#ev.main_thread_ready" == some (pbool true) && e "#ev.stop_requested" == some (pbool false) &&
+      e "#ev.reset_tx" == some (pbool true) && e "self.tx_state" == some (txPV .idle)
+    then some (some x) else none
+  | _ => none
+
+/-- the run returns with the expected final environment (the fuel bound of `worker_runs`, `k + 18`, is sufficient, not tight: this run
+    needs 12) -/
+example : demoWorker wMeths 19 1 = some none ∧ demoWorker wMeths 12 1 = some none ∧ demoWorker wMeths 11 1 = none := by decide
+
+/-- with a `process` that raises: ready flag set, the loop left at once (the pending request NOT served, `stop_requested` not set), the
+    logic layer reset by the `finally` block, `ValueError` out of the function -/
+example : demoWorker raiseMeths 40 1 = some (some "ValueError") := by decide
+
 end Isotp.PyAgree.Thr
+
+#print axioms Isotp.PyAgree.Thr.process_refuses
+#print axioms Isotp.PyAgree.Thr.process_hands_over
+#print axioms Isotp.PyAgree.Thr.process_agrees
+#print axioms Isotp.PyAgree.Thr.process_raises_iff
+#print axioms Isotp.PyAgree.Thr.reset_refuses
+#print axioms Isotp.PyAgree.Thr.reset_agrees
+#print axioms Isotp.PyAgree.Thr.reset_raises_iff
+#print axioms Isotp.PyAgree.Thr.worker_src
+#print axioms Isotp.PyAgree.Thr.procStep_eq_workerStep
+#print axioms Isotp.PyAgree.Thr.workerIter_eq_workerStep
+#print axioms Isotp.PyAgree.Thr.serveTx_eq_stopSending
+#print axioms Isotp.PyAgree.Thr.serveRx_eq_stopReceiving
+#print axioms Isotp.PyAgree.Thr.proc_full
+#print axioms Isotp.PyAgree.Thr.proc_cf
+#print axioms Isotp.PyAgree.Thr.serve_tx_is_hServe
+#print axioms Isotp.PyAgree.Thr.serve_rx_is_hServeRx
+#print axioms Isotp.PyAgree.Thr.serve_tx
+#print axioms Isotp.PyAgree.Thr.serve_rx
+#print axioms Isotp.PyAgree.Thr.worker_body
+#print axioms Isotp.PyAgree.Thr.worker_loop_exit
+#print axioms Isotp.PyAgree.Thr.worker_iteration
+#print axioms Isotp.PyAgree.Thr.worker_iteration_workerStep
+#print axioms Isotp.PyAgree.Thr.proc_raises_callee
+#print axioms Isotp.PyAgree.Thr.worker_loop_raises_callee
+#print axioms Isotp.PyAgree.Thr.worker_loop_raises
+#print axioms Isotp.PyAgree.Thr.worker_ready_first
+#print axioms Isotp.PyAgree.Thr.worker_fn_of_loop_next
+#print axioms Isotp.PyAgree.Thr.worker_fn_of_loop_raised
+#print axioms Isotp.PyAgree.Thr.worker_loop_sched
+#print axioms Isotp.PyAgree.Thr.worker_exits_on_stop
+#print axioms Isotp.PyAgree.Thr.worker_runs
+#print axioms Isotp.PyAgree.Thr.worker_raises_finally
+#print axioms Isotp.PyAgree.Thr.worker_raises_finally_callee
+#print axioms Isotp.PyAgree.Thr.worker_loop_raises_after
+#print axioms Isotp.PyAgree.Thr.worker_raises_finally_after
+#print axioms Isotp.PyAgree.Thr.procStep_cf_ne_workerStep
+#print axioms Isotp.PyAgree.Thr.cf_iteration_not_workerStep
+#print axioms Isotp.PyAgree.Thr.Quiet.process
+#print axioms Isotp.PyAgree.Thr.Rq_coreRel
+#print axioms Isotp.PyAgree.Thr.Rq_workerRel
+#print axioms Isotp.PyAgree.Thr.spec_of_agree
+#print axioms Isotp.PyAgree.Thr.wMeths_spec
+#print axioms Isotp.PyAgree.Thr.wMeths_worker
+#print axioms Isotp.PyAgree.Thr.raiseMeths_spec
+#print axioms Isotp.PyAgree.Thr.raiseMeths_prims
